@@ -361,6 +361,29 @@ impl BlobLog {
         }
     }
 
+    /// Replaces the contents of this log with a snapshot's, in place.
+    pub fn restore_from(&self, snapshot: BlobLogSnapshot) {
+        let next_segment_id = snapshot
+            .sealed
+            .iter()
+            .map(|s| s.id)
+            .chain(std::iter::once(snapshot.active.id))
+            .max()
+            .unwrap_or(0)
+            + 1;
+        let total_bytes: u64 = snapshot.index.values().map(|loc| loc.length as u64).sum();
+        let chunk_count = snapshot.index.len() as u64;
+
+        *self.active.lock() = snapshot.active;
+        *self.sealed.write() = snapshot.sealed;
+        *self.index.write() = snapshot.index;
+        self.garbage.lock().clear();
+        self.next_segment_id
+            .store(next_segment_id, Ordering::Relaxed);
+        self.total_bytes.store(total_bytes, Ordering::Relaxed);
+        self.chunk_count.store(chunk_count, Ordering::Relaxed);
+    }
+
     /// Restore from a snapshot.
     #[must_use]
     pub fn restore(snapshot: BlobLogSnapshot) -> Self {
